@@ -74,7 +74,10 @@ class MarkovChain(ABC):
             current_time = time()
             elapsed = current_time - start_time
             if elapsed > 0:
-                update_interval = max(int(steps_taken / elapsed), 1)
+                # (about one second's worth of steps - but no more than the budget which is
+                # left: a budget of 10 ms is not to be overrun by a second)
+                remaining = min(max(run_time - elapsed, 0.0), 1.0)
+                update_interval = max(int(remaining * steps_taken / elapsed), 1)
             else:
                 # the clock has not ticked yet (steps much faster than its resolution)
                 update_interval *= 2
